@@ -175,3 +175,14 @@ def run_case(case):
                 break
         pm.reset_globals()
     return Outcome(discs, labels, nt)
+
+
+def extra_stages(tier, seed):
+    from vlib import engine
+    seeds = []
+    for i, framing in enumerate(['rtu', 'ascii', 'binary', 'tcp']):
+        for pdu in (specpdu.encode('req:6', {'address': 3, 'value': 0x1234}), specpdu.encode('req:16', {'address': 2, 'registers': [1, 2]})):
+            for uidsel, uid in ((0, 1), (1, 0x11)):
+                seeds.append(bytes([i, 0, uidsel]) + refframe.build(framing, uid, pdu, 7, 0))
+                seeds.append(bytes([i, 1, uidsel]) + b'\x00{:' + refframe.build(framing, uid, pdu, 7, 0) * 2)
+    return engine.atheris_stage(PID, tier, seed, 10000 if tier == 'quick' else 600000, seeds, max_len=200)
